@@ -81,6 +81,17 @@ CHECKS.update({
         note="Trusted base: tokio paused clock; poolsim collaborators (see C02). When the first poll happens after both the deadline and the inner completion either answer is accepted."),
 })
 
+CHECKS.update({
+    "C13": dict(engine="reqgrammar", ref="§5 C13, §4 E6",
+        technique="grammar-based property testing of the public client layers and the real connection builder with the wire captured; oracle = statement-derived expectations on request target, Host header, version, stripped headers and protocol selection",
+        text="Requests from a grammar (schemes, hosts incl. IPv4/IPv6, ports, paths, queries, URI forms, methods incl. CONNECT, all versions, pre-set headers) crossed with connection outcomes (request version x ALPN) go through SetHostHeader/Http2Checks/Http1Checks over a stub connection, through ConnectionPoolService (pooled/unpooled) and ConnectorService with stub collaborators, and through the real HttpConnectionBuilder + RequestExecutor with the bytes captured: preface iff HTTP/2 requested or ALPN h2; HTTP/1 target, Host (caller's preserved) and HTTP/2 header stripping / CONNECT rejection as stated.",
+        note="Trusted base: the http crate decides which requests are well-typed; hyper serialises the final http::Request (target compared via to_string and, in the wire leg, parsed from the captured bytes); for schemes without a default port either Host form is accepted."),
+    "C17": dict(engine="reqgrammar", ref="§5 C17, §4 E6",
+        technique="grammar-based robustness testing with a process-wide panic hook and catch_unwind: any panic located in the library (caller task or spawned task) is a violation; debug assertions on",
+        text="The C13 request grammar (every http::Version constant, standard/extension methods incl. CONNECT, absolute/origin/authority/asterisk forms, DNS/IPv4/bracketed IPv6/unusual hosts, header sets, bodies) is sent through the check layers, ConnectionPoolService with and without pool, ConnectorService and the real connection builder; panics caught by the runtime in spawned tasks are observed through the hook.",
+        note="Trusted base: panic hook + location filter (/repo/); full-stack TLS/TCP legs live in the C12 engine (tlswire) and netsim."),
+})
+
 NOT_YET = {
     "C01": "check not built yet (engine E2 netsim in progress)",
     "C07": "check not built yet (engine E2 netsim in progress)",
